@@ -78,7 +78,7 @@ var recFields = []fld{
 	{"id", tN}, {"name", tS}, {"grp", tS}, {"vals", tA(tN)}, {"attrs", tO(tS)}, {"on", tB}, {"pt", tPt},
 }
 var ptFields = []fld{{"x", tN}, {"y", tN}}
-var mapKeys = []string{"a", "b", "c", "d", "e", "f", "k1", "k2", "zz", "A"}
+var mapKeys = []string{"a", "b", "c", "d", "e", "f", "k 1", "é", "zz", "q\"t", "A", "k2"}
 
 func fieldsOf(t *Ty) []fld {
 	switch t.K {
@@ -319,6 +319,10 @@ func (g *ExprGen) w(n int) bool { return g.r.Intn(100) < n }
 
 func numLit(r *Rng) *Expr {
 	return lit(pick(r, []string{"0", "1", "2", "3", "5", "10", "2.5", "-1", "1.0", "100", "1e2", "0.25"}))
+}
+
+func intLit(r *Rng) *Expr {
+	return lit(pick(r, []string{"0", "1", "2", "3", "4", "7", "-1", "1.5", "10", "100"}))
 }
 
 func strLit(r *Rng) *Expr {
@@ -591,7 +595,7 @@ func (g *ExprGen) gen(want, cur *Ty, depth int) *Expr {
 	d := depth + 1
 	switch want.K {
 	case 'n':
-		switch g.r.Intn(12) {
+		switch g.r.Intn(13) {
 		case 0:
 			return fn("length", g.gen(pick(g.r, []*Ty{tA(tN), tS, tO(tN), tA(tRec)}), cur, d))
 		case 1:
@@ -612,10 +616,19 @@ func (g *ExprGen) gen(want, cur *Ty, depth int) *Expr {
 			if g.w(g.b.Enum) {
 				return fn(pick(g.r, []string{"sum", "max", "min", "length", "avg"}), g.enumArr(tN, cur, d))
 			}
+		case 10:
+			f := fn(pick(g.r, []string{"find_first", "find_last"}), g.gen(tS, cur, d), strLit(g.r))
+			if g.r.P(1, 2) {
+				f.C = append(f.C, intLit(g.r))
+				if g.r.P(1, 2) {
+					f.C = append(f.C, intLit(g.r))
+				}
+			}
+			return f
 		}
 		return g.leaf(want, cur)
 	case 's':
-		switch g.r.Intn(12) {
+		switch g.r.Intn(15) {
 		case 0:
 			return fn("join", strLit(g.r), g.gen(tA(tS), cur, d))
 		case 1:
@@ -637,7 +650,30 @@ func (g *ExprGen) gen(want, cur *Ty, depth int) *Expr {
 				return fn(pick(g.r, []string{"max", "min"}), fn("keys", g.gen(tO(tN), cur, d)))
 			}
 		case 9:
-			return fn("replace", g.gen(tS, cur, d), strLit(g.r), strLit(g.r))
+			f := fn("replace", g.gen(tS, cur, d), strLit(g.r), strLit(g.r))
+			if g.r.P(1, 2) {
+				f.C = append(f.C, intLit(g.r))
+			}
+			return f
+		case 10:
+			name := pick(g.r, []string{"pad_left", "pad_right"})
+			f := fn(name, g.gen(tS, cur, d), intLit(g.r))
+			if g.r.P(1, 2) {
+				f.C = append(f.C, pick(g.r, []*Expr{{K: KStr, S: "*"}, {K: KStr, S: "é"}, {K: KStr, S: "ab"}, {K: KStr, S: ""}}))
+			}
+			return f
+		case 11:
+			name := pick(g.r, []string{"trim", "trim_left", "trim_right"})
+			f := fn(name, g.gen(tS, cur, d))
+			if g.r.P(2, 3) {
+				f.C = append(f.C, pick(g.r, []*Expr{{K: KStr, S: "a"}, {K: KStr, S: " x"}, {K: KStr, S: "é日"}, {K: KStr, S: ""}}))
+			}
+			return f
+		case 12:
+			e := &Expr{K: KSlice, C: []*Expr{g.gen(tS, cur, d)}}
+			e.N = []int{g.r.Intn(5) - 2, g.r.Intn(7) - 2, pick(g.r, []int{1, 2, -1, -2, 3})}
+			e.F = []bool{g.r.P(1, 2), g.r.P(1, 2), true}
+			return e
 		}
 		return g.leaf(want, cur)
 	case 'b':
@@ -736,7 +772,7 @@ func (g *ExprGen) genArr(want, cur *Ty, d int) *Expr {
 		}
 		return e
 	}
-	switch g.r.Intn(16) {
+	switch g.r.Intn(18) {
 	case 0:
 		if el.K == 'n' || el.K == 's' {
 			return fn("sort", g.gen(want, cur, d))
@@ -762,8 +798,30 @@ func (g *ExprGen) genArr(want, cur *Ty, d int) *Expr {
 			rhsE = field("vals")
 		case xt.K == 'r' && el.K == 'o':
 			rhsE = &Expr{K: KHash, Keys: []string{"i", "n"}, C: []*Expr{field("id"), field("name")}}
+		case xt.K == 'a' && g.r.P(1, 2):
+			rhsE = pick(g.r, []*Expr{
+				{K: KIndex, C: []*Expr{nil}, N: []int{g.r.Intn(3) - 1}},
+				{K: KFilter, C: []*Expr{nil, mkS(KBin, ">", &Expr{K: KCur}, numLit(g.r)), nil}},
+				{K: KProj, C: []*Expr{nil, nil}},
+			})
 		default:
 			rhsE = fn("not_null", g.gen(el, xt, d+1))
+		}
+		if xt.K == 'r' && g.r.P(1, 3) {
+			// chained right-hand sides that the parser handles inside a projection
+			rhsE = pick(g.r, []*Expr{
+				{K: KHash, Keys: []string{"i", "n"}, C: []*Expr{field("id"), field("name")}},
+				{K: KHash, Keys: []string{"only"}, C: []*Expr{field("grp")}},
+				{K: KList, C: []*Expr{field("id"), field("grp")}},
+				{K: KList, C: []*Expr{field("name")}},
+				{K: KOProj, C: []*Expr{nil, nil}},
+				{K: KOProj, C: []*Expr{field("attrs"), nil}},
+				{K: KOProj, C: []*Expr{field("pt"), nil}},
+				{K: KIndex, C: []*Expr{field("vals")}, N: []int{g.r.Intn(3) - 1}},
+				{K: KProj, C: []*Expr{field("vals"), nil}},
+				mk(KSub, field("pt"), &Expr{K: KList, C: []*Expr{field("x"), field("y")}}),
+				mk(KSub, field("pt"), &Expr{K: KHash, Keys: []string{"X"}, C: []*Expr{field("x")}}),
+			})
 		}
 		if g.r.P(1, 5) {
 			rhsE = nil
@@ -781,13 +839,49 @@ func (g *ExprGen) genArr(want, cur *Ty, d int) *Expr {
 		}
 		return &Expr{K: KProj, C: []*Expr{src, rhsE}}
 	case 5:
+		if el.K == 'n' && g.r.P(1, 2) {
+			// flatten-and-project: recs[].vals[] style chains
+			return &Expr{K: KFlat, C: []*Expr{&Expr{K: KFlat, C: []*Expr{g.gen(tA(tRec), cur, d), field("vals")}}, nil}}
+		}
+		if g.r.P(1, 3) {
+			// leading-bracket forms applied to the current node after a pipe
+			src := g.gen(tA(want), cur, d)
+			return mk(KPipe, src, &Expr{K: KFlat, C: []*Expr{nil, nil}})
+		}
 		return &Expr{K: KFlat, C: []*Expr{g.gen(tA(want), cur, d), nil}}
+	case 13:
+		src := g.gen(want, cur, d)
+		var tail *Expr
+		switch g.r.Intn(4) {
+		case 0:
+			tail = &Expr{K: KProj, C: []*Expr{nil, nil}}
+		case 1:
+			tail = &Expr{K: KFilter, C: []*Expr{nil, g.gen(tB, el, d+1), nil}}
+		case 2:
+			tail = &Expr{K: KSlice, C: []*Expr{nil}, N: []int{g.r.Intn(3), 1 + g.r.Intn(4), 1}, F: []bool{true, true, false}}
+		default:
+			tail = &Expr{K: KSProj, C: []*Expr{nil, nil}, N: []int{0, 0, pick(g.r, []int{1, 2, -1})}, F: []bool{false, false, true}}
+		}
+		return mk(KPipe, src, tail)
+	case 14:
+		if el.K == 's' {
+			f := fn("split", g.gen(tS, cur, d), strLit(g.r), intLit(g.r))
+			return f
+		}
 	case 6:
 		xt := pick(g.r, []*Ty{tRec, tN, tS})
 		return fn("map", ref(g.gen(el, xt, d+1)), g.gen(tA(xt), cur, d))
 	case 7:
 		n := 1 + g.r.Intn(3)
 		l := &Expr{K: KList}
+		if g.r.P(1, 3) {
+			// child.[a, b]: evaluated against an intermediate value
+			t := pick(g.r, []*Ty{tRec, tDoc, tPt})
+			for i := 0; i < n; i++ {
+				l.C = append(l.C, g.gen(el, t, d+1))
+			}
+			return mk(KSub, g.gen(t, cur, d), l)
+		}
 		for i := 0; i < n; i++ {
 			l.C = append(l.C, g.gen(el, cur, d))
 		}
@@ -826,7 +920,13 @@ func (g *ExprGen) genObj(want, cur *Ty, d int) *Expr {
 			h.C = append(h.C, g.gen(el, cur, d))
 		}
 		if g.r.P(1, 3) {
-			return g.compose(g.gen(tAny, cur, d), h)
+			t := pick(g.r, []*Ty{tRec, tDoc, tPt, tAny})
+			h2 := &Expr{K: KHash}
+			for i := 0; i < n; i++ {
+				h2.Keys = append(h2.Keys, pick(g.r, mapKeys[:8]))
+				h2.C = append(h2.C, g.gen(el, t, d+1))
+			}
+			return mk(KSub, g.gen(t, cur, d), h2)
 		}
 		return h
 	case 2, 3:
